@@ -112,7 +112,18 @@ func (r *Registry) extendChain() {
 		r.chain[r.chainUpTo] = chainHash(r.chain[r.chainUpTo-1], e)
 		if isConfEntry(e) {
 			if _, v2, err := decodeCC(e); err == nil {
-				if next, merr := r.latestConf().Apply(v2); merr == nil {
+				cur := r.latestConf()
+				if next, merr := cur.Apply(v2); merr == nil {
+					if len(cur.Voters) == 2 {
+						for v := range cur.Voters {
+							if !next.Voters[v] {
+								// README: a voter removed/demoted out of a
+								// two-voter set is the documented liveness
+								// exception (C15).
+								r.s.Stats.inc("conf.two_voter_shrink")
+							}
+						}
+					}
 					r.confAt = append(r.confAt, confPoint{r.chainUpTo, next})
 				}
 			}
